@@ -280,17 +280,20 @@ Section InterpPriv.
     destruct r2; try (inversion H; subst; auto; fail).
     match type of H with (let (_, _) := alloc ?hh ?nn in _) = _ => destruct (alloc hh nn) as [h4 o] eqn:Ea2 end.
     inversion H; subst. eapply priv_alloc; [| |eauto].
-    - repeat (match goal with |- context [match ?x with _ => _ end] => let y := scrut x in destruct y eqn:? end;
-              try cbv beta iota); fin.
-    - simpl. constructor; [reflexivity|]. destruct (assoc (u "_valid_refs") m); repeat constructor.
+    - match goal with |- context [update_items ?a ?b ?c] => destruct (update_items a b c) as [hu|] eqn:Eu end;
+        (match goal with |- private_attrs (if ?c then _ else _) => destruct c end);
+        try (match goal with |- private_attrs (match set_item ?a ?b ?c ?d with _ => _ end) =>
+               destruct (set_item a b c d) eqn:? end);
+        fin.
+    - simpl. constructor; [reflexivity|].
+      match goal with |- context [match ?x with _ => _ end] => destruct x end; repeat constructor.
   Qed.
 
   Lemma construct_priv : forall c kw h h' res,
     private_attrs h -> construct W rec c kw h = (h', res) -> private_attrs h'.
   Proof.
     unfold construct, bindv. intros c kw h h' res P H.
-    crunch H; eauto using construct_body_priv.
-    eapply construct_body_priv; [|eauto]. fin.
+    crunch H; try (eapply construct_body_priv; [|eassumption]); fin.
   Qed.
 
   Lemma parse_dict_priv : forall v ver ac h h' res,
